@@ -162,6 +162,10 @@ def check(run):
             run.fail('representation-dependent', 'identifier of "%s" depends on object identity / layout / file-name spelling within one process: %s' % (label, a), {'kind': 'extra', 'label': label, 'index': j})
         elif len(set(a + b)) != 1:
             run.fail('process-dependent', 'identifier of "%s" differs between interpreter processes: here %s, fresh interpreters %s' % (label, a[0], b), {'kind': 'extra', 'label': label, 'index': j})
+    # identifiers along histories: computed while objects are being built vs afterwards; before execute, after it, after reloading
+    from jugverif import hashhist
+    hashhist.order_family(run, 'C07')
+    hashhist.history_family(run)
     run.counts['kinds'] = kinds
     if drv is not None:
         if bad_corr == 0:
